@@ -107,7 +107,7 @@ def main():
                   "domain": "exact real arithmetic (z3 Real); double literals that are roundings of simple rationals (1/6, 1/2) denote those rationals"}
     res.outside = ["rounding: 'to within rounding error proportional to the boundary data' is decided as exact equality of the real formulas", "a_poly_xTx/a_poly_xTy (pow-based least-squares helpers, not part of the property)"]
     res.assumptions = ["floats are treated as reals in this check by design: the claim is about the mathematical formula, not about IEEE results"]
-    e2.run_e2(res, cfg, ["trajpoly3.c", "trajpoly5.c", "trajpoly7.c", "poly.c", "a.c"], inst, builder, group="poly", validate_every=1, exec_attrs={"force_solver": True}, tol=1e-6,
+    e2.run_e2(res, cfg, ["trajpoly3.c", "trajpoly5.c", "trajpoly7.c", "poly.c", "a.c"], inst, builder, group="poly", validate_every=1, exec_attrs={"force_solver": True}, exec_opts={"solver": "nra"}, tol=1e-6,
               time_budget=300 if T == "quick" else 1500)
     e2.finish_coverage(res, must_cover=["a_trajpoly7_gen", "a_trajpoly5_gen", "a_trajpoly3_gen", "a_poly_eval_", "a_poly_evar_", "a_poly_swap_"], report_funcs=None)
     return res.finish()
